@@ -437,6 +437,48 @@ func checkAddrTables(r *Run, rc *RuleCtx, le *linEval, tn string, xored bool, ad
 		if !okSel {
 			bad(g, "reader address length", "the address length must be 16 for family 0x02 and 4 for family 0x01")
 		}
+		// the destination IP has exactly that length on every success path: its last assignment is a
+		// reslice to (or a make of) the selected length
+		isSel := func(v ssa.Value) bool {
+			cs := constSetOf(v, 0)
+			return len(cs) == 2 && cs[4] && cs[16]
+		}
+		idx := errorResultIndex(g)
+		rep := map[*ssa.Return]bool{}
+		nSucc := 0
+		q := &PathQuery{P: p, Fn: g}
+		q.Step = func(in ssa.Instruction, deferred bool, st uint64, c *PathCtx) (uint64, bool) {
+			s, ok := in.(*ssa.Store)
+			if !ok {
+				return st, false
+			}
+			if fa, isFA := s.Addr.(*ssa.FieldAddr); !isFA || fieldOfAddr(fa) != ipF {
+				return st, false
+			}
+			switch x := s.Val.(type) {
+			case *ssa.Slice:
+				if x.Low == nil && x.High != nil && isSel(x.High) {
+					return 1, false
+				}
+			case *ssa.MakeSlice:
+				if isSel(x.Len) {
+					return 1, false
+				}
+			}
+			return 2, false
+		}
+		q.AtReturn = func(ret *ssa.Return, st uint64, c *PathCtx) {
+			if idx < 0 || c.NilState(ret.Results[idx]) == -1 {
+				return
+			}
+			nSucc++
+			if st != 1 && !rep[ret] {
+				rep[ret] = true
+				rc.ViolationPath(g, instrPos(ret), tn+": destination IP length", "on this success path the destination IP is not resliced to (or made with) the length selected by the family: decoding an IPv4 address into a value that held an IPv6 address yields a 16-byte result (a different address)", c.Witness(g, ret))
+			}
+		}
+		q.Run()
+		rc.Instance(tn+"|reader destination length", true, map[string]int{"success_paths": nSucc})
 	}
 	if !okFam {
 		bad(g, "reader family", "the family at bytes [0:2) must be compared with 0x0001 and 0x0002")
@@ -614,6 +656,46 @@ func checkUnknownAttrs(r *Run, rc *RuleCtx, le *linEval, add *ssa.Function) {
 	if !okW {
 		rc.Violation(w, w.Pos(), "UNKNOWN-ATTRIBUTES writer", "the value must be a packed list of 16-bit attribute types (entry i at bytes [2i, 2i+2))")
 	}
+	// the buffer the entries are appended to starts empty (entry i lands at byte 2i, nothing precedes or follows)
+	eachInstr(w, func(b *ssa.BasicBlock, i int, in ssa.Instruction) {
+		ap, ok := in.(*ssa.Call)
+		if !ok || !isBuiltinCall(ap, "append") {
+			return
+		}
+		lp := inLoop(loopsOf(w), b)
+		ph, isPhi := ap.Call.Args[0].(*ssa.Phi)
+		if lp == nil || !isPhi || ph.Block() != lp.Header {
+			return
+		}
+		var initial func(v ssa.Value, depth int) bool
+		initial = func(v ssa.Value, depth int) bool {
+			if depth > 4 {
+				return false
+			}
+			if p2, ok := v.(*ssa.Phi); ok {
+				for _, e := range p2.Edges {
+					if !initial(e, depth+1) {
+						return false
+					}
+				}
+				return len(p2.Edges) > 0
+			}
+			if zeroLenValue(v, 0) {
+				return true
+			}
+			// local array scratch: arr[:0]
+			return false
+		}
+		for k, e := range ph.Edges {
+			if lp.Body[ph.Block().Preds[k]] {
+				continue // loop-carried
+			}
+			rc.Instance("UNKNOWN-ATTRIBUTES|writer buffer starts empty", true, map[string]string{"initial": exprDepth(e, 0)})
+			if !initial(e, 0) {
+				rc.Violation(w, instrPos(ap), "UNKNOWN-ATTRIBUTES writer buffer "+exprDepth(e, 0), "the buffer the 16-bit entries are appended to does not start empty: the value carries bytes that are not entries (a list of n types must encode to exactly 2n bytes)")
+			}
+		}
+	})
 	// reader: Uint16 at v[first:first+2], first advancing by 2, and the length guard modulo 2
 	okR, okStep, okMod := false, false, false
 	for _, s := range wireSites(le, g) {
